@@ -356,13 +356,13 @@ LookupAllResult(g, req, p) ==
     IF MHas(g, req, p) THEN MHit(g, req, p)
     ELSE UncachedLookupAll(RoSeen(g), req, p)
 QLookupAll(g, req, p) ==
-    /\ IF MHas(g, req, p)
-             THEN Touch(VerifyG(g), {}, rbases, {}, NoAdd, NoAdd, NoAdd, NoAdd)
-             ELSE Touch(VerifyG(g), {}, rbases, {}, NoAdd,
-                        Only(g, {[req |-> req, prov |-> p,
-                                  res |-> LookupAllResult(g, req, p)]}),
-                        NoAdd, Only(g, SeqSet(req)))
-       /\ UNCHANGED primary
+    /\ (IF MHas(g, req, p)
+           THEN Touch(VerifyG(g), {}, rbases, {}, NoAdd, NoAdd, NoAdd, NoAdd)
+           ELSE Touch(VerifyG(g), {}, rbases, {}, NoAdd,
+                      Only(g, {[req |-> req, prov |-> p,
+                                res |-> LookupAllResult(g, req, p)]}),
+                      NoAdd, Only(g, SeqSet(req))))
+    /\ UNCHANGED primary
 
 SHas(g, req, p) ==
     \E x \in CacheSeen(scache, g) : x.req = req /\ x.prov = p
@@ -372,13 +372,13 @@ SubsResult(g, req, p) ==
     IF SHas(g, req, p) THEN SHit(g, req, p)
     ELSE UncachedSubs(RoSeen(g), req, p)
 QSubs(g, req, p) ==
-    /\ IF SHas(g, req, p)
-             THEN Touch(VerifyG(g), {}, rbases, {}, NoAdd, NoAdd, NoAdd, NoAdd)
-             ELSE Touch(VerifyG(g), {}, rbases, {}, NoAdd, NoAdd,
-                        Only(g, {[req |-> req, prov |-> p,
-                                  res |-> SubsResult(g, req, p)]}),
-                        Only(g, SeqSet(req)))
-       /\ UNCHANGED primary
+    /\ (IF SHas(g, req, p)
+           THEN Touch(VerifyG(g), {}, rbases, {}, NoAdd, NoAdd, NoAdd, NoAdd)
+           ELSE Touch(VerifyG(g), {}, rbases, {}, NoAdd, NoAdd,
+                      Only(g, {[req |-> req, prov |-> p,
+                                res |-> SubsResult(g, req, p)]}),
+                      Only(g, SeqSet(req))))
+    /\ UNCHANGED primary
 
 (***************************************************************************)
 (* Declarative side                                                        *)
@@ -450,11 +450,12 @@ SubsAdmissible(g, req, p, result) == result \in SubsAdmSet(g, req, p)
 (***************************************************************************)
 LookReqs == UNION {[1..n -> Specs] : n \in 0..2}
 
-\* C04 + C06: the walk over the CACHED ro returns a best registration of the
+\* C04 + C06: the walk over the ro a query sees (the cached one, after
+\* _verify for the verifying flavour) returns a best registration of the
 \* CURRENT chain
 WalkIsBest(LR, LP) ==
     \A g \in Regs : \A req \in LR : \A p \in LP : \A nm \in Names :
-        UncachedLookup(rro[g], req, p, nm) \in Admissible(g, req, p, nm)
+        UncachedLookup(RoSeen(g), req, p, nm) \in Admissible(g, req, p, nm)
 
 \* C06
 RoIsFresh == \A g \in Regs :
@@ -475,14 +476,14 @@ CacheTransparent ==
 \* C07 on the mechanism (uncached, cached ro)
 SubsExact(LR, LP) ==
     \A g \in Regs : \A req \in LR : \A p \in LP :
-        SubsAdmissible(g, req, p, UncachedSubs(rro[g], req, p))
+        SubsAdmissible(g, req, p, UncachedSubs(RoSeen(g), req, p))
 
 \* C08 on the mechanism
 EntryPointsAgree(LR, LP) ==
     \A g \in Regs : \A req \in LR : \A p \in LP :
-        LET all == UncachedLookupAll(rro[g], req, p)
+        LET all == UncachedLookupAll(RoSeen(g), req, p)
         IN /\ \A nm \in Names :
-                LET r == UncachedLookup(rro[g], req, p, nm)
+                LET r == UncachedLookup(RoSeen(g), req, p, nm)
                 IN IF r = NONE THEN ~\E y \in all : y[1] = nm
                    ELSE <<nm, r>> \in all
            /\ \A y \in all : y[1] \in Names
